@@ -1,6 +1,7 @@
 import TunnoxModel.Proofs.C17Mutex
 import TunnoxModel.Proofs.C17Evict
 import TunnoxModel.Proofs.C17Slot
+import TunnoxModel.Proofs.C17Ctr
 /-!
 # C17 — configured limits and quotas hold under concurrency
 
@@ -533,6 +534,35 @@ example :
 /-- `holds` for slots rejects an acquisition at the limit and a live count above it. -/
 example : C17Slot.holds 1 [.acq 0 0, .acq 1 0] = false := by decide
 example : C17Slot.holds 1 [.acq 0 0, .reg 0 1, .cls 0 0, .acq 1 0, .reg 1 1] = true := by decide
+
+/-! ## The slot counter at instruction granularity, releases racing admissions -/
+
+/-- **C17, slot counter.** `acquireConnectionSlot` = `Load`, limit check, `CompareAndSwap`, retry;
+`releaseConnectionSlot` = ONE atomic `Add(-1)`.  Any number of connections coming and going
+(`acquire; release; acquire; …` per thread), every interleaving of their atomic instructions —
+releases racing admissions included —, every limit (0 = unlimited), `pre ≤ limit` slots held at the
+start: never more than `limit` connections hold a slot. -/
+theorem C17_ctr_main (limit pre : Nat) (hpre : limit = 0 ∨ pre ≤ limit) (σ : List Nat) :
+    C17Ctr.holds limit (C17Ctr.run true limit (C17Ctr.init pre) σ).trace = true :=
+  (C17Ctr.inv_run σ _ (C17Ctr.inv_init limit pre hpre)).good
+
+/-- … and the counter equals the number of holders after every instruction (so it is never negative
+while somebody holds a slot, and never above the limit). -/
+theorem C17_ctr_exact (limit pre : Nat) (hpre : limit = 0 ∨ pre ≤ limit) (σ : List Nat) :
+    (C17Ctr.run true limit (C17Ctr.init pre) σ).cnt = (C17Ctr.run true limit (C17Ctr.init pre) σ).held ∧
+    (limit = 0 ∨ (C17Ctr.run true limit (C17Ctr.init pre) σ).cnt ≤ limit) :=
+  ⟨(C17Ctr.inv_run σ _ (C17Ctr.inv_init limit pre hpre)).eq, (C17Ctr.inv_run σ _ (C17Ctr.inv_init limit pre hpre)).cap⟩
+
+/-- **Release as `Load … Store` (seeded regression `release-slot-load-then-store`).** Limit 2, one
+holder: its release loads 1; connection 1 is admitted (`CompareAndSwap` 1→2) before the release stores 0 —
+connection 1 holds a slot the counter no longer knows; connections 2 and 3 get in: three holders. -/
+theorem C17_ctr_split_release_witness :
+    C17Ctr.holds 2 (C17Ctr.run false 2 (C17Ctr.init 1) [0, 1, 1, 0, 2, 2, 3, 3]).trace = false := by decide
+
+/-- The same schedule with the atomic release: the third connection is refused. -/
+example :
+    (C17Ctr.run true 2 (C17Ctr.init 1) [0, 1, 1, 2, 2, 3, 3]).trace
+      = [.rel 0 0, .adm 1 1, .adm 2 2, .ref 3, .ref 3] := by decide
 
 /-! ## Non-vacuity -/
 
